@@ -1,6 +1,6 @@
 """Shared machinery of the checks: building the harness against /repo's working tree, running TLC,
 validating recorded traces against trace specifications, known findings, evidence files."""
-import os, sys, json, time, hashlib, subprocess, shutil, glob, re, tempfile, concurrent.futures
+import threading, os, sys, json, time, hashlib, subprocess, shutil, glob, re, tempfile, concurrent.futures
 
 VERIF = os.path.dirname(os.path.dirname(os.path.abspath(__file__)))
 REPO = os.environ.get("VERIF_REPO", "/repo")
@@ -113,10 +113,26 @@ def run_harness(exe, args, outdir, stream, timeout=900, parts=1, extra_env=None)
         procs.append((st, subprocess.Popen(cmd, cwd=VERIF, env=env, stdout=subprocess.PIPE, stderr=subprocess.STDOUT, text=True)))
     res = dict(stats=[], violations=[], crashed=[], streams=[])
     deadline = time.time() + timeout
+    # a run-away library call (a loop that keeps allocating) must not take the machine down: a harness process above 16 GiB resident is stopped
+    # and counted as "did not return" (the largest legitimate driver stays below 4 GiB)
+    hogs = set(); stop = threading.Event()
+    def watch():
+        page = os.sysconf("SC_PAGE_SIZE")
+        while not stop.wait(0.5):
+            if all(pr.poll() is not None for _, pr in procs): return
+            for _, pr in procs:
+                if pr.poll() is None:
+                    try:
+                        rss = int(open("/proc/%d/statm" % pr.pid).read().split()[1]) * page
+                    except (OSError, ValueError, IndexError):
+                        continue
+                    if rss > 16 * 2**30:
+                        hogs.add(pr.pid); pr.kill()
+    wt = threading.Thread(target=watch, daemon=True); wt.start()
     for st, pr in procs:
         try:
             out, _ = pr.communicate(timeout=max(1, deadline - time.time()))
-            rc = pr.returncode
+            rc = "memory" if pr.pid in hogs else pr.returncode
         except subprocess.TimeoutExpired:
             pr.kill(); out, _ = pr.communicate(); rc = "timeout"
         res["streams"].append(st)
@@ -136,6 +152,7 @@ def run_harness(exe, args, outdir, stream, timeout=900, parts=1, extra_env=None)
         vp = os.path.join(outdir, st + ".violations.ndjson")
         if os.path.exists(vp):
             res["violations"] += [json.loads(l) for l in open(vp) if l.strip()]
+    stop.set()
     return res
 
 def merge_stats(stats):
